@@ -39,11 +39,17 @@ type JobRun struct {
 	lastRunFailed  bool
 	failNextCommit bool
 	c18            *c18Track
+	midErr         *Violation
 	recMu          sync.Mutex     // transform workers report concurrently
 	consumed       map[string]int // job id -> number of source feed entries delivered by successful incremental runs
 }
 
+var traceOut = os.Getenv("VERIF_TRACE") != ""
+
 func (r *JobRun) ev(format string, args ...any) {
+	if traceOut {
+		fmt.Fprintf(os.Stderr, "EV "+format+"\n", args...)
+	}
 	r.trace = append(r.trace, fmt.Sprintf(format, args...)...)
 	r.trace = append(r.trace, '\n')
 }
@@ -58,6 +64,23 @@ func entIDs(h *Hub, subject any) []string {
 		}
 	}
 	return out
+}
+
+// entsOf reads entity specs from a scenario value (typed when generated, generic after a JSON round trip).
+func entsOf(v any) []Ent {
+	switch l := v.(type) {
+	case []Ent:
+		return l
+	case []any:
+		var out []Ent
+		for _, x := range l {
+			if m, ok := x.(map[string]any); ok {
+				out = append(out, Ent(m))
+			}
+		}
+		return out
+	}
+	return nil
 }
 
 func intOf(m map[string]any, k string) int {
@@ -88,6 +111,18 @@ func (r *JobRun) installFaults(jobID string, spec map[string]any) {
 		switch name {
 		case "sink.dataset":
 			r.seenSink++
+			if mw, ok := spec["midWrite"].(map[string]any); ok && intOf(mw, "at") == r.seenSink {
+				// a client writes while the run is between two deliveries; simulated time passes around it
+				r.recMu.Unlock()
+				time.Sleep(time.Millisecond)
+				v := r.applyBatch(fmt.Sprint(mw["ds"]), entsOf(mw["ents"]))
+				time.Sleep(time.Millisecond)
+				r.recMu.Lock()
+				r.Stats["mid_run_writes"]++
+				if v != nil && r.midErr == nil {
+					r.midErr = v
+				}
+			}
 			if k := intOf(spec, "sinkStoreFailAt"); k > 0 && r.seenSink == k {
 				// let the sink's own StoreEntities fail at its data commit
 				r.failNextCommit = true
@@ -324,32 +359,9 @@ func RunJobScenario(sc *Scenario) (vd *Verdict) {
 		time.Sleep(d)
 		switch op.K {
 		case "batch":
-			ds := r.H.Dataset(op.DS)
-			if ds == nil {
-				fail(viol(sc.Property, "harness", "invalid", "no dataset %s", op.DS), i)
+			if v := r.applyBatch(op.DS, op.Ents); v != nil {
+				fail(v, i)
 				return
-			}
-			if err := ds.StoreEntities(r.H.Entities(op.Ents)); err != nil {
-				fail(viol(sc.Property, "write", "batch-rejected", "%v", err), i)
-				return
-			}
-			r.M.Batch(op.DS, op.Ents)
-			r.Stats["commits"]++
-			r.ev("batch %d", len(op.Ents))
-			if r.c18 == nil {
-				r.c18 = &c18Track{changed: map[string]map[string]bool{}, prev: NewModel(), tokens: map[string]uint64{}}
-			}
-			if r.c18.changed[op.DS] == nil {
-				r.c18.changed[op.DS] = map[string]bool{}
-			}
-			for _, e := range op.Ents {
-				r.c18.changed[op.DS][CanonSpec(e).ID] = true
-			}
-			if r.c18.maxCommit == nil {
-				r.c18.maxCommit = map[string]int{}
-			}
-			if len(op.Ents) > r.c18.maxCommit[op.DS] {
-				r.c18.maxCommit[op.DS] = len(op.Ents)
 			}
 		case "addJob":
 			// predicates of MultiSource joins are CURIEs: resolve the markers against this hub's prefixes
@@ -406,6 +418,38 @@ func RunJobScenario(sc *Scenario) (vd *Verdict) {
 		}
 	}
 	return
+}
+
+// applyBatch writes one batch as a client does and records it in the model.
+func (r *JobRun) applyBatch(dsName string, ents []Ent) *Violation {
+	ds := r.H.Dataset(dsName)
+	if ds == nil {
+		return viol(r.Sc.Property, "harness", "invalid", "no dataset %s", dsName)
+	}
+	if err := ds.StoreEntities(r.H.Entities(ents)); err != nil {
+		return viol(r.Sc.Property, "write", "batch-rejected", "%v", err)
+	}
+	r.M.Batch(dsName, ents)
+	r.Stats["commits"]++
+	r.ev("batch %d", len(ents))
+	if r.c18 == nil {
+		r.c18 = &c18Track{changed: map[string]map[string]bool{}, prev: NewModel(), tokens: map[string]uint64{}}
+	}
+	if r.c18.changed[dsName] == nil {
+		r.c18.changed[dsName] = map[string]bool{}
+	}
+	for _, e := range ents {
+		r.c18.changed[dsName][CanonSpec(e).ID] = true
+	}
+	if r.c18.commits == nil {
+		r.c18.commits = map[string][][]string{}
+	}
+	var ids []string
+	for _, e := range ents {
+		ids = append(ids, CanonSpec(e).ID)
+	}
+	r.c18.commits[dsName] = append(r.c18.commits[dsName], ids)
+	return nil
 }
 
 // runOp performs one job run with its faults and evaluates the C08 oracles.
@@ -1003,7 +1047,7 @@ type c18Track struct {
 	changed   map[string]map[string]bool // dataset -> ids written since the last fixpoint
 	prev      *Model                     // model at the last fixpoint
 	tokens    map[string]uint64          // dependency tokens at the last look
-	maxCommit map[string]int             // dataset -> largest number of entities one commit wrote since the last fixpoint
+	commits   map[string][][]string      // dataset -> ids written by each commit since the last fixpoint
 }
 
 // runFixOp runs the job until its continuation token stops changing and checks what was emitted.
@@ -1027,7 +1071,7 @@ func (r *JobRun) runFixOp(op *Op, i int) *Violation {
 	if st, _ := r.H.Full.Sched.GetJobState(id); st == nil || st.ContinuationToken == "" {
 		firstEver = true
 	}
-	for round := 0; round < 8; round++ {
+	for round := 0; round < 80; round++ { // a run consumes one page of changes per dependency
 		runSpec := map[string]any{}
 		if round == 0 {
 			runSpec = spec
@@ -1037,6 +1081,9 @@ func (r *JobRun) runFixOp(op *Op, i int) *Violation {
 		r.clearFaults()
 		if err != nil || !ended {
 			return viol("C18", "job-run", "run-failed", "run %d: %v ended=%v", round, err, ended)
+		}
+		if r.midErr != nil {
+			return r.midErr
 		}
 		r.Stats["job_runs"]++
 		for _, b := range r.delivered {
@@ -1070,12 +1117,13 @@ func (r *JobRun) runFixOp(op *Op, i int) *Violation {
 				r.c18.tokens[ds] = n
 			}
 		}
+		r.ev("round %d err=%q token=%s", round, lastErr, st.ContinuationToken)
 		if lastErr == "" && st.ContinuationToken == lastTok {
 			break
 		}
 		lastTok = st.ContinuationToken
-		if round == 7 {
-			return viol("C18", "job-run", "no-fixpoint", "continuation tokens still change after 8 runs")
+		if round == 79 {
+			return viol("C18", "job-run", "no-fixpoint", "continuation tokens still change after 80 runs")
 		}
 	}
 	r.ev("runFix emitted=%d", len(emitted))
@@ -1139,13 +1187,24 @@ func (r *JobRun) runFixOp(op *Op, i int) *Violation {
 				cls = "dependent-main-entity-not-emitted"
 			} else if strings.HasPrefix(want[y], "was connected") {
 				cls = "previously-linked-main-entity-not-emitted"
-				// KF-C18-1: the look back in time uses the stamp of the change preceding the current page; when one
-				// commit to the dependency dataset is larger than the job's batch size that change belongs to the
-				// same commit, so the link is already gone at that instant
-				for ds := range deps {
-					if bs := intOf(cfg, "batchSize"); bs > 0 && r.c18.maxCommit[ds] > bs {
-						cls += ":commit-larger-than-batch"
-						break
+				// KF-C18-1: the look back in time uses the stamp of the change preceding the current page; when a
+				// page of changes can start inside the commit that removed the link (the commit wrote other
+				// changes before it and the dependency has more pending changes than one page holds), that change
+				// belongs to the same commit, so the link is already gone at that instant
+				if i1, i2 := strings.Index(want[y], " entity "), strings.Index(want[y], " through"); i1 > 0 && i2 > i1 {
+					x := want[y][i1+8 : i2]
+					ds := strings.TrimPrefix(want[y][:i1], "was connected to changed ")
+					total, inside := 0, false
+					for _, c := range r.c18.commits[ds] {
+						total += len(c)
+						for k, id := range c {
+							if k > 0 && shortURI(id) == x {
+								inside = true
+							}
+						}
+					}
+					if bs := intOf(cfg, "batchSize"); bs > 0 && inside && total > bs {
+						cls += ":page-starts-inside-commit"
 					}
 				}
 			} else if strings.HasPrefix(want[y], "first run") {
@@ -1157,7 +1216,7 @@ func (r *JobRun) runFixOp(op *Op, i int) *Violation {
 	r.Stats["dependency_checks"]++
 	r.Stats["expected_emissions"] += int64(len(want))
 	r.c18.changed = map[string]map[string]bool{}
-	r.c18.maxCommit = map[string]int{}
+	r.c18.commits = map[string][][]string{}
 	r.c18.prev = r.M.Clone()
 	return nil
 }
